@@ -191,7 +191,9 @@ def from_sx(x):
 # exact evaluation
 def surrogate(name: str, args, salt: int = 0) -> Fraction:
     """Deterministic pseudo-random rational 'interpretation' of an opaque function at exact arguments."""
-    key = name.lower() + "|" + "|".join(f"{a.numerator}/{a.denominator}" for a in args) + f"|{salt}"
+    # arguments are keyed by 10 significant digits so that a value the implementation folded to a float
+    # (1/3 -> 0.333333333333333) and the exact rational on the other side meet at the same key
+    key = name.lower() + "|" + "|".join(f"{float(a):.9e}" for a in args) + f"|{salt}"
     h = int.from_bytes(hashlib.sha256(key.encode()).digest()[:6], "big")
     return Fraction(h % 2003 + 1, (h >> 20) % 5 + 1)
 
